@@ -47,7 +47,7 @@ theorem ilog10_lt16 (x : Nat) (h0 : 0 < x) (h1 : x < 10 ^ 16) : ilog10 x ≤ 15 
 
 /-- `New` on a coefficient of at most 16 digits only shifts (no rounding) -/
 theorem new_small (sign : Int) (c : Nat) (e : Int) (hs : sign = 1 ∨ sign = -1)
-    (hc0 : 0 < c) (hc : c < 10 ^ 16) (he1 : -128 ≤ e) (he2 : e ≤ 127) :
+    (hc0 : 0 < c) (hc : c < 10 ^ 16) (he1 : -113 ≤ e) (he2 : e ≤ 127) :
     new sign c e = ⟨c * 10 ^ (15 - ilog10 c), sign, e - (15 - ilog10 c : Nat)⟩ := by
   have hk := ilog10_lt16 c hc0 hc
   have h1 : ¬(sign = 0 ∨ c = 0 ∨ e < expMin) := by simp only [expMin]; omega
@@ -60,7 +60,7 @@ theorem new_small (sign : Int) (c : Nat) (e : Int) (hs : sign = 1 ∨ sign = -1)
     have hn : ¬ ilog10 c > shiftMax := by show ¬ (15 < ilog10 c); omega
     simp only [maxShift]; rw [if_neg hn]; rfl
   simp only [new, h1, h2, h3, if_false, roundLoop, h4, Bool.not_false, if_true, hms, hp]
-  rw [if_neg (by simp only [expMax]; omega)]
+  rw [if_neg (by simp only [expMin]; omega), if_neg (by simp only [expMax]; omega)]
 
 /-- the normal form of `FromInt` of a positive integer of at most 16 digits -/
 def normal (s : Int) (m : Nat) : Dnum := ⟨m * 10 ^ (15 - ilog10 m), s, (ilog10 m : Int) + 1⟩
